@@ -440,7 +440,7 @@ def history_job(eng, tables, prop, tname, steps, deadline, max_paths=None, initi
             if fam in ("sign1", "sign", "mac"):
                 methods += ["payload"]
             if fam in ("sign1", "sign"):
-                methods += ["create_detached"]
+                methods += ["create_detached", "try_create_detached"]
             m = methods[ctx.choose(len(methods), "step%d" % i)]
             if m in ("protected", "unprotected"):
                 b = ctx.call("%s::%s" % (B, m), [b, header_palette(ctx, eng, tables, "s%d" % i)])
@@ -452,7 +452,8 @@ def history_job(eng, tables, prop, tname, steps, deadline, max_paths=None, initi
                     dirty = True
             else:
                 out_bytes = ctx.fresh_opaque("made%d" % i, "vec")
-                fallible = m == "try_create"
+                fallible = m in ("try_create", "try_create_detached")
+                detached_m = m in ("create_detached", "try_create_detached")
                 fail = fallible and ctx.choose(2, "creator-fails%d" % i) == 1
                 err = Adt("HarnessError", None, [Sc("u64", ctx.fresh_bv("err", 64))])
                 result = (lambda: Adt("Result", "Err", [err])) if fail else \
@@ -470,10 +471,10 @@ def history_job(eng, tables, prop, tname, steps, deadline, max_paths=None, initi
                     args.append(sigv)
                 name = {"sign1": "create_signature", "sign": "add_created_signature", "mac": "create_tag",
                         "enc": "create_ciphertext"}[fam]
-                if m == "create_detached":
+                if detached_m:
                     name = {"sign1": "create_detached_signature", "sign": "add_detached_signature"}[fam]
                     args.append(slice_ref(ctx.fresh_opaque("detached", "vec")))
-                elif fallible:
+                if fallible:
                     name = "try_" + name
                 plaintext = None
                 if fam == "enc":
@@ -489,7 +490,7 @@ def history_job(eng, tables, prop, tname, steps, deadline, max_paths=None, initi
                 must_panic = False
                 if fam == "mac" and f_(I, cur, "payload").variant == "None":
                     must_panic = True
-                if m == "create_detached" and f_(I, cur, "payload").variant == "Some":
+                if detached_m and f_(I, cur, "payload").variant == "Some":
                     must_panic = True
                 if tname == "CoseRecipient" and rctx not in RECIPIENT_CTX:
                     must_panic = True
@@ -518,8 +519,8 @@ def history_job(eng, tables, prop, tname, steps, deadline, max_paths=None, initi
                     b = res.fields[0]
                 else:
                     b = res
-                created = (rec.calls[0][-1], out_bytes, n_signers, m == "create_detached",
-                           args[2] if (m == "create_detached" and fam == "sign") else (args[1] if m == "create_detached" else None))
+                created = (rec.calls[0][-1], out_bytes, n_signers, detached_m,
+                           args[2] if (detached_m and fam == "sign") else (args[1] if detached_m else None))
                 if fam == "sign":
                     n_signers += 1
                 dirty = False
